@@ -417,20 +417,22 @@ pub fn token(emu: u8, with_resize: bool) -> BoxedStrategy<Tok> {
     let raw = vec(any::<u8>(), 1..=6).prop_map(|v| vec![Piece::Lit(v)]);
     let ansi_like = emu <= 8;
     if ansi_like {
-        prop_oneof![
-            8 => text(),
-            4 => c0,
-            2 => esc,
-            12 => csi(),
-            3 => dcs(),
-            2 => osc(),
-            1 => aps,
-            if (1..=3).contains(&emu) { 3 } else { 1 } => music(),
-            2 => raw,
-            if emu >= 5 { 8 } else { 1 } => emu_specific(emu),
-            if with_resize { 1 } else { 0 } => resize(),
-        ]
-        .boxed()
+        let mut opts: Vec<(u32, BoxedStrategy<Tok>)> = vec![
+            (8, text()),
+            (4, c0.boxed()),
+            (2, esc.boxed()),
+            (12, csi()),
+            (3, dcs()),
+            (2, osc()),
+            (1, aps.boxed()),
+            (if (1..=3).contains(&emu) { 3 } else { 1 }, music()),
+            (2, raw.boxed()),
+            (if emu >= 5 { 8 } else { 1 }, emu_specific(emu)),
+        ];
+        if with_resize {
+            opts.push((1, resize()));
+        }
+        proptest::strategy::Union::new_weighted(opts).boxed()
     } else {
         prop_oneof![8 => text(), 4 => c0, 2 => esc, 2 => raw, 8 => emu_specific(emu), 1 => csi()].boxed()
     }
